@@ -130,7 +130,8 @@ class Tuning(tuple):
     def __init__(self, tuning, octave_ratio=2.0, *, name=None):
         self._octave_ratio = octave_ratio
         self._name = name
-        self._spo = math.log2(octave_ratio) * len(tuning)
+        # Tuning values are semitones, 12 per octave of ratio 2.
+        self._spo = math.log2(octave_ratio) * 12.0
 
     @classmethod
     def from_name(cls, name):  # Was newFromKey.
